@@ -248,6 +248,20 @@ func c08CorpusRange(run *evid.Run, seed int64, from, to int, checkAll bool) []st
 		if f := entryFieldsDiff(created, back, true); f != "" {
 			run.Violate("C08/read-back-differs", det("codec", codec, "field", f, "class", class), wit(), "written and read-back entry differ in %s (%s)", f, label)
 		}
+		if codec == "link" {
+			// storing the DECODED entry again through the keyed codec gives the block it came from: same identifier, and
+			// what is read back from it has the same fields (the writer's key among them)
+			s3 := store.New()
+			c2, err := entry.ToMultihashWithIO(ctx, back, s3.API(), nil, io)
+			if err != nil || !c2.Equals(created.GetHash()) {
+				run.Violate("C08/reencode-differs", det("class", class, "codec", codec), wit(), "storing the decoded entry again (link key) gave %v (err %v), original %v", c2, err, created.GetHash())
+			} else if again, err := entry.FromMultihashWithIO(ctx, s3.API(), c2, ident.Provider, io); err != nil {
+				run.Violate("C08/read-back-error", det("codec", codec, "class", class, "stored_again", true), wit(), "reading back an entry that was stored again failed: %v", err)
+			} else if f := entryFieldsDiff(created, again, true); f != "" {
+				run.Violate("C08/read-back-differs", det("codec", codec, "field", f, "class", class, "stored_again", true), wit(), "an entry stored again and read back differs in %s (%s)", f, label)
+			}
+			run.Count("reencode_checks_link", 1)
+		}
 		if codec == "cbor" {
 			// re-encoding the decoded entry gives the same identifier
 			c2, err := entry.ToMultihashWithIO(ctx, back, w.Store.API(), nil, io)
